@@ -358,6 +358,8 @@ def replay(case):
     exp_keys = [obj_key(x, Tspec) for x in objs]
     h = drive(dec, data, spec, double, policy, list(chunks), set(polls), eos_after, start_empty)
     feats = U.type_features(T) | {'double:' + double, 'policy:' + policy, 'spec' if spec is not None else 'nospec'}
+    if term != 'stop':
+        feats.add('damaged')        # the complete input does not end quietly: not a stream of valid encodings
     check_history(res, h, exp_keys, term, Tspec, feats, case)
     return res
 
